@@ -241,6 +241,7 @@ proof {
     lemma_run_empty(ud0.rely_rel(), ud0.rely_st());
     lemma_run_empty(rel_true(), d.inner().rst0());
     assert(ud0.trace() + Seq::<Ev>::empty() =~= ud0.trace());
+    assert(sent::<Patience<Old, New, D>>(Seq::<Ev>::empty()) + Seq::<Ev>::empty() =~= Seq::<Ev>::empty());
     assert(d.inner().inv());
     assert(d.inv());
 }
